@@ -495,6 +495,21 @@ func pubsubC07(c *Ctx) {
 			call, ok := in.(*ssa.Call)
 			return ok && P.CalleeName(&call.Call) == "(*ChanCaster).Add" && isZero(callArg(in, 1))
 		})
+		{
+			// a departing subscriber only ever polls the send lock: once it has tried (and is therefore on the unsubscribe
+			// path) it never queues for it - the sender that holds or awaits the lock may be counting on this very
+			// subscriber, which is not going to receive
+			blocking := append(P.CallsTo(q.fn, "(*sync.RWMutex).RLock"), P.CallsTo(q.fn, "(*sync.RWMutex).Lock")...)
+			waits := false
+			for _, t := range trys {
+				if len(blocking) > 0 && P.PathExists(q.fn, t, an.In(blocking), nil, nil) {
+					waits = true
+				}
+			}
+			if len(trys) > 0 {
+				q.add("PATH", "a departing subscription polls the send lock and never queues for it", !waits, pickS(!waits, "no blocking RLock/Lock is reachable after a TryRLock", "the unsubscribe path can block in RLock/Lock after polling: it parks behind a Send that is queued for the write side and will count this subscriber, which never receives - Send, the Unsubscribe and every later call hang"), trys[0])
+			}
+		}
 		if inLoop == nil || len(zeroAdds) != 1 {
 			q.undecided("COND", "spin until the read lock is taken or the caster is armed", "the TryRLock loop was not recognised")
 		} else {
